@@ -119,6 +119,17 @@ class PegSampler(object):
         self.cost = {}
         self._costs()
         self.rules_used = set()
+        # names built on the tool's own reserved words (as they are on the tree under observation): the terminal's look-ahead
+        # refuses them today; should a change let one through, it is generated
+        self.words = list(_WORDS)
+        try:
+            from coco.b09 import grammar as _g
+            kws = [k for k in getattr(_g, "KEYWORDS", "").split("|") if k.isalpha()]
+            rng2 = rng
+            for k in rng2.sample(kws, min(len(kws), 12)):
+                self.words += [k + "X", k + "1", k + "FLAG", k]
+        except Exception:  # noqa: BLE001
+            pass
 
     # ---- minimal derivation depth per expression (fixpoint), to be able to terminate
     def _members(self, e):
@@ -179,7 +190,7 @@ class PegSampler(object):
             # identifier-like terminals: mostly plausible names (the lookahead excluding keywords is not honoured by
             # the sampler, so a share of raw samples is kept to meet keywords and look-alikes too)
             if "[A-Z][A-Z0-9]*" in pat and r.random() < self.word_bias:
-                w = r.choice(_WORDS)
+                w = r.choice(self.words)
                 w = w.rstrip("$") + ("$" if pat.rstrip(")").endswith("\\$") else "")
                 if e.re.fullmatch(w):
                     return w
